@@ -32,6 +32,7 @@ KNOBS = {
     "p_cancel_fault": 0.12,
     "p_ack_fail": 0.1,
     "p_timeout": 0.2,
+    "p_zero_timeout": 0.15,      # typed numeric zero (0 / 0.0) sent through the kicker: the body is ended at once
     "p_sync": 0.15,
     "p_deps": 0.1,
     "p_dep_fail": 0.15,
